@@ -1,7 +1,7 @@
 (* C06 correspondence cases: a mapping set, two namespaces, a super-class provider and a list
    of queries, each with what the implementation answered. *)
 From FB Require Export C06.Model.
-From FB Require Import C06.Theory2 C06.Theory3.
+From FB Require Import C06.Theory2 C06.Theory3 C06.Theory4.
 
 Definition key3 := (str * (str * str))%type.   (* class, (name, descriptor) *)
 
@@ -18,17 +18,26 @@ Inductive query :=
 | QMethodRef (o : str) (k : key) (r : res key3)               (* map_method_ref (class may be an array) *)
 | QMethodRefObj (o : str) (k : key) (r : res key3).           (* map_method_ref_obj *)
 
+(* one member query there and back: field / method, inside = the harness' own evaluation of the
+   hypotheses of C06_roundtrip_inherited says the query is inside them *)
+Inductive rtq := RT (meth inside : bool) (o : str) (k : key) (there back : res (str * (str * str))).
+
 Inductive case :=
 | CDesc (T : atable) (d : str) (r : res str)
     (* map_desc through a hand-written ARemapper whose map_class_fail is the table T *)
 | CA (M : mappings) (from to : N) (qs : list query)
     (* Mappings::remapper_a(from, to) and queries against it *)
-| CB (hyp : bool) (M : mappings) (from to : N) (I : inh) (qa : list query) (built : bool) (qs : list query).
-    (* qa: answers of Mappings::remapper_a(from, to); then Mappings::remapper_b(from, to, &I),
-       built = false when it returned Err, and the answers to qs.
+| CB (hyp : bool) (M : mappings) (from to : N) (ps : list inh) (qa : list query) (built : bool) (qs : list query)
+     (ps' : list inh) (rts : list rtq).
+    (* ps: the entry lists of the Vec<JarSuperProv>, one list per provider (the search sees their
+       concatenation).  qa: answers of Mappings::remapper_a(from, to); then
+       Mappings::remapper_b(from, to, &ps), built = false when it returned Err, and the answers to qs.
        hyp = true: the generator claims the world satisfies the decidable hypotheses of the theorems
        (rows_valid, tables_inj in both directions, names_valid); the model re-checks them, and for
-       every world that the traversal from every provider key is bounded by the default fuel *)
+       every world that the traversal from every provider key is bounded by the default fuel.
+       ps': what JarSuperProv::remap(forward remapper, ps) returned, per provider; rts: member
+       queries sent X -> Y through the forward remapper and the answer sent Y -> X through
+       Mappings::remapper_b(to, from, &ps'), with both answers (empty when a remapper was not built) *)
 
 Definition okey_eqb := opt_eqb key_eqb.
 Definition key3_eqb (a b : key3) : bool := str_eqb (fst a) (fst b) && key_eqb (snd a) (snd b).
@@ -71,16 +80,49 @@ Fixpoint get_first (k : str) (l : atable) : option str :=
 Definition tbl_map_class (T : atable) (c : str) : str :=
   match get_first c T with Some n => n | None => c end.
 
+(* the inherited round trip: JarSuperProv::remap is [remap_provs]; the way back goes through the
+   tables remapper_b(to, from) builds and the remapped providers; a query the harness puts inside the
+   hypotheses must satisfy the decidable hypotheses of C06_roundtrip_inherited and come back *)
+Definition inh_eqb : inh -> inh -> bool := list_eqb (pair_eqb str_eqb (list_eqb str_eqb)).
+Definition check_rt (M : mappings) (from to : N) (R : bremap) (ps ps' : list inh) (rts : list rtq) : bool :=
+  match rts with
+  | [] => true
+  | _ =>
+    let ih := concat ps in
+    let mps := remap_provs (b_map_class R) ps in
+    let ih' := concat mps in
+    let world := rt_world R ih && forallb prov_wf ps in
+    match remapper_b M (N.to_nat to) (N.to_nat from) with
+    | Err => false
+    | Ok R' =>
+        list_eqb inh_eqb mps ps' &&
+        forallb (fun e => bounded (default_fuel ih') ih' (fst e)) ih' &&
+        forallb (fun q => match q with RT meth inside o k there back =>
+          res_eqb key3_eqb (if meth then map_method_ref_obj R ih o k else map_field_ref R ih o k) there &&
+          match there with
+          | Ok (c', k') => res_eqb key3_eqb (if meth then map_method_ref_obj R' ih' c' k' else map_field_ref R' ih' c' k') back
+          | Err => match back with Err => true | Ok _ => false end
+          end &&
+          (negb inside ||
+             (world && (if meth then rt_owner b_methods R ih o && method_query_ok R ih o k
+                        else rt_owner b_fields R ih o && field_query_ok R ih o k)
+              && res_eqb key3_eqb back (Ok (o, k))))
+        end) rts
+    end
+  end.
+
 Definition check (c : case) : bool :=
   match c with
   | CDesc T d r => res_eqb str_eqb (map_desc (tbl_map_class T) d) r
   | CA M from to qs => forallb (check_a (remapper_a M (N.to_nat from) (N.to_nat to))) qs
-  | CB hyp M from to ih qa built qs =>
+  | CB hyp M from to ps qa built qs ps' rts =>
+      let ih := concat ps in
       forallb (check_a (remapper_a M (N.to_nat from) (N.to_nat to))) qa &&
       forallb (fun e => bounded (default_fuel ih) ih (fst e)) ih &&
       match remapper_b M (N.to_nat from) (N.to_nat to) with
-      | Err => negb built && negb hyp
+      | Err => negb built && negb hyp && is_nil rts
       | Ok R => built && forallb (check_b R ih) qs &&
-                (negb hyp || (rows_valid M && tables_inj R && tables_inj (swap_b R) && names_valid R))
+                (negb hyp || (rows_valid M && tables_inj R && tables_inj (swap_b R) && names_valid R)) &&
+                check_rt M from to R ps ps' rts
       end
   end.
